@@ -68,7 +68,7 @@ int main(int argc, char** argv) {
   if (argc >= 3 && !strcmp(argv[1], "--seed")) { random_mode = 1; rng = strtoull(argv[2], 0, 10) * 0x2545F4914F6CDD1DULL + 1; }
   else if (argc >= 2) {
     FILE* f = fopen(argv[1], "r"); if (!f) { perror("tape"); return 3; }
-    size_t cap = 1024; tape = malloc(cap * sizeof *tape); char line[256];
+    size_t cap = 1024; tape = malloc(cap * sizeof *tape); char line[16384]; /* the JSON header line of a tape can be long (failing assertion texts) */
     while (fgets(line, sizeof line, f)) { if (line[0] == '#' || line[0] == '\n') continue; if (tape_len == cap) { cap *= 2; tape = realloc(tape, cap * sizeof *tape); } tape[tape_len++] = strtoull(line, 0, 0); }
     fclose(f);
   }
@@ -82,3 +82,10 @@ uint16_t nondet_u16(void) { return (uint16_t)verif_in(16); }
 uint32_t nondet_u32(void) { return (uint32_t)verif_in(32); }
 uint64_t nondet_u64(void) { return verif_in(64); }
 uint8_t nondet_bool(void) { return (uint8_t)verif_in(1); }
+/* 0 under CBMC, 1 in the native builds: lets a contract stub draw its result nondeterministically (+assume) for the solver
+ * and compute it deterministically for native replay / differential runs (the contract must determine the result uniquely). */
+#ifdef __CPROVER__
+int verif_native(void) { return 0; }
+#else
+int verif_native(void) { return 1; }
+#endif
